@@ -144,6 +144,10 @@ def _strategy(draw):
                 a[3] = [round(0.02 + 0.045 * (i % 10), 3), round(0.02 + 0.045 * ((i // 10) % 10), 3),
                         round(0.02 + 0.045 * (i // 100), 3)]
             spec["small_cell"] = True
+    if spec.get("coords") and spec["coords"]["mode"] == "c" and not spec.get("small_cell") and draw(st.integers(0, 7)) == 0:
+        # -res names every residue of the system: nothing of the structure file is used but its box
+        opts["build_res"] = sorted({r["resname"] for mt in spec["moltypes"] for r in mt["residues"]})
+        spec["res_names_everything"] = True
     if draw(st.booleans()):
         opts["grid_spacing"] = draw(st.sampled_from([0.2, 0.5, 1.0]))
     if draw(st.integers(0, 3)) == 0 and not spec.get("small_cell"):
@@ -266,6 +270,8 @@ def check(spec, ctx):
     if len(got_box) > 3 and any(abs(v) > 1e-9 for v in got_box[3:]):
         raise Violation("box:triclinic_terms", f"{got_box}")
     ctx.label("box_from_" + source)
+    if spec.get("res_names_everything"):
+        ctx.label("res_names_every_residue")
     if spec.get("zero_counts"):
         ctx.label("molecules_lines_with_count_0")
     if spec.get("include_layout"):
